@@ -65,7 +65,16 @@ def motl_df_from_parts(parts, rng):
         cols["phi"][i], cols["theta"][i], cols["psi"][i] = angles_of(p["e"], rng)
         cols["tomo_id"][i], cols["subtomo_id"][i], cols["class"][i] = p["tomo"], p["sid"], p["cls"]
         cols["object_id"][i] = rng.randint(1, 9)
-    return motlutil.df_from_cols(cols)
+    # the constructors accept the 20 fields in any column order (canonical, reversed, random); expectations are by name
+    k = rng.random()
+    order = None
+    if k >= 0.34:
+        order = list(motlutil.FIELDS)
+        if k < 0.67:
+            order.reverse()
+        else:
+            rng.shuffle(order)
+    return motlutil.df_from_cols(cols, order=order)
 
 
 def origin_names(v):
@@ -365,8 +374,28 @@ class Runner:
                 independent_relion_file(path, rdf, v, px, rng, optics=not with_px)
                 back, err = core.call_guarded(api_load, path, v, px, 1 if v == 30 or with_px else variant // 4)
             else:
-                back, err = core.call_guarded(api_import, motlutil.vary_index(rdf, variant // 8), v, px, variant // 4,
-                                              explicit_px=not (with_px and v < 40 and variant % 8 < 4))
+                # the SAME table object is imported one to three times through different entry points; every import is
+                # judged against the original values and the earlier results must stay valid (the caller's table is input only)
+                table = motlutil.vary_index(rdf, variant // 8)
+                explicit = not (with_px and v < 40 and variant % 8 < 4)
+                backs = []
+                for rep in range(1 + (variant // 2) % 3):
+                    b, err = core.call_guarded(api_import, table, v, px, variant // 4 + rep, explicit_px=explicit)
+                    if err is not None:
+                        break
+                    backs.append(b)
+                if err is None:
+                    exp = case["back"]
+                    for rep, b in enumerate(backs):
+                        for when in ("", " (judged again after the later imports)") if rep < len(backs) - 1 else ("",):
+                            if rep == 0 and when == "":
+                                continue                   # the first import is judged below, like every single import
+                            what = "import no. %d of the same table object%s" % (rep + 1, when)
+                            if not self.compare_rows(project_motl(b)[0], exp, ["x", "s", "R", "tomo", "cls", "geom3"],
+                                                     lambda f: "C03_ImportPose" if f in ("x", "s", "R") else "C03_Identity",
+                                                     case, dict(sig, repeated=True), what):
+                                break
+                    back = backs[0]
             if err is not None:
                 self.fail("call_raises", "import: %s" % err, case, sig)
                 return
